@@ -1124,3 +1124,447 @@ class RankToMixedRadix(Unrank2):
 
     def fresh_result(self, cx, a, case):
         return self.intvec(cx, "cfg", a.sizes.shape[0])
+
+
+# ---------------------------------------------------------------------------------------------------------
+# U1 x U1:  [0, C(na,ka)*C(nb,kb))  <->  weight-ka strings on the first na sites  x  weight-kb on the last nb
+# View model: flatconfig[:na] is the same array with length na; flatconfig[na:] is shift(c, na) with
+# shift(c,off)[j] = c[j+off] (definitional axiom), length n-na; a callee's writes into a view are written
+# through to the base array (`__writeback__`).
+# ---------------------------------------------------------------------------------------------------------
+
+
+class U1U1(U1):
+    def table_requires2(self, a):
+        pt = a.pt
+        mx = If(a.na >= a.nb, a.na, a.nb)
+        mk = If(a.ka >= a.kb, a.ka, a.kb)
+        # "The Pascal triangle table of shape containing at least max(na, nb)" (build_pascal_table(max(na, nb)))
+        return {"pt-shape": And(pt.shape[0] >= mx + 1, pt.shape[1] >= mk + 1),
+                "pt-pascal": pascal(pt, pt.shape[0], pt.shape[1])}
+
+    def sector_requires(self, a):
+        return {"na,nb>=0": And(a.na >= 0, a.nb >= 0), "0<=ka<=na": And(0 <= a.ka, a.ka <= a.na),
+                "0<=kb<=nb": And(0 <= a.kb, a.kb <= a.nb)}
+
+    def instances(self, cx):
+        # indices at which the posts of the u1 callees are used: the skolem index in either section
+        return [G, G - cx.old.na]
+
+    def call(self, cx, name, args, kwargs, node):
+        if name == "__getslice__":
+            base, lo, hi, st = args
+            if not (isinstance(base, Arr) and base.ndim == 1 and st is None):
+                return NotImplemented
+            n = base.shape[0]
+            if lo is None and hi is not None:
+                cx.oblige(f"slice@{node.lineno}:0<=stop<=len", "safety", And(0 <= Z(hi), Z(hi) <= n), node.lineno)
+                return Arr(base.a, (hi,))
+            if hi is None and lo is not None:
+                cx.oblige(f"slice@{node.lineno}:0<=start<=len", "safety", And(0 <= Z(lo), Z(lo) <= n), node.lineno)
+                cx.assume(def_shift(base.a, Z(lo)))  # definition of the view
+                return Arr(shift(base.a, Z(lo)), (n - lo,))
+            return NotImplemented
+        if name == "__writeback__":
+            argnode, new, oldview = args
+            import ast as _ast
+
+            if not (isinstance(argnode, _ast.Subscript) and isinstance(argnode.value, _ast.Name)
+                    and isinstance(argnode.slice, _ast.Slice)):
+                return NotImplemented
+            bname = argnode.value.id
+            base = cx.env[bname]
+            lo = cx.ev(argnode.slice.lower) if argnode.slice.lower else None
+            if lo is None:
+                cx.env[bname] = Arr(new.a, base.shape)  # same storage: the callee's frame covers the rest
+            else:
+                # write-through of the view [lo:]: base'[j] = view'[j-lo] for j >= lo, else base[j]; used at the
+                # indices of interest only (instances of the definition)
+                nb_ = Arr(cx.Array(f"{bname}'wb", IntS, IntS), base.shape)
+                for j in self.instances(cx)[:1]:
+                    cx.assume(sel(nb_, j) == If(j >= lo, sel(new, j - lo), sel(base, j)))
+                cx.env[bname] = nb_
+            return None
+        return super().call(cx, name, args, kwargs, node)
+
+
+@register
+class RankU1U1(U1U1):
+    """r = R(c[:na]) * C(nb,kb) + R(c[na:])"""
+
+    target = f"{CC}::flatconfig_to_rank_u1u1_pascal"
+    floor = 8
+
+    def inputs(self, cx, case):
+        na, nb = cx.Int("na"), cx.Int("nb")
+        return dict(flatconfig=self.intvec(cx, "c", na + nb), na=na, ka=cx.Int("ka"), nb=nb, kb=cx.Int("kb"),
+                    pt=self.table(cx))
+
+    def requires(self, a, case):
+        c = a.flatconfig
+        return {**self.sector_requires(a), "shape": c.shape[0] == a.na + a.nb, "bits": bits(c, 0, a.na + a.nb),
+                "weight-a==ka": KR(c.a, a.ka, a.na) == 0, "weight-b==kb": KR(shift(c.a, a.na), a.kb, a.nb) == 0,
+                **self.table_requires2(a)}
+
+    def ensures(self, a, r, cx, case):
+        c = a.flatconfig.a
+        return {"rank==Ra*Db+Rb": r == Rk(c, a.na, a.ka, a.na) * C(a.nb, a.kb) + Rk(shift(c, a.na), a.nb, a.kb, a.nb)}
+
+    def fresh_result(self, cx, a, case):
+        return cx.Int("rank")
+
+
+@register
+class UnrankU1U1(U1U1):
+    """c'[:na] = u1-unrank(r div Db), c'[na:] = u1-unrank(r mod Db), Db = C(nb,kb); requires 0 <= r < C(na,ka)*Db"""
+
+    target = f"{CC}::rank_into_flatconfig_u1u1_pascal"
+    floor = 12
+
+    def inputs(self, cx, case):
+        na, nb = cx.Int("na"), cx.Int("nb")
+        return dict(flatconfig=self.intvec(cx, "c", na + nb), r=cx.Int("r"), na=na, ka=cx.Int("ka"), nb=nb,
+                    kb=cx.Int("kb"), pt=self.table(cx))
+
+    def requires(self, a, case):
+        return {**self.sector_requires(a), "shape": a.flatconfig.shape[0] == a.na + a.nb,
+                "rank-in-sector": And(0 <= a.r, a.r < C(a.na, a.ka) * C(a.nb, a.kb)), **self.table_requires2(a)}
+
+    def u1u1_post(self, a, c1):
+        Db = C(a.nb, a.kb)
+        ra, rb = a.r / Db, a.r % Db
+        return self.at_all(a, lambda j: And(
+            Implies(And(0 <= j, j < a.na), sel(c1, j) == If(UBit(ra, a.na, a.ka, j), 1, 0)),
+            Implies(And(a.na <= j, j < a.na + a.nb), sel(c1, j) == If(UBit(rb, a.nb, a.kb, j - a.na), 1, 0))))
+
+    def ensures(self, a, res, cx, case):
+        c1 = self.final(a, cx)
+        return {"greedy-bits-both-sections": self.u1u1_post(a, c1),
+                "frame": self.frame_post(a, c1, a.flatconfig, 0, a.na + a.nb), "returns-None": res is None}
+
+    def fresh_result(self, cx, a, case):
+        self.publish(cx, a)
+        return None
+
+    def call(self, cx, name, args, kwargs, node):
+        if name == "rank_into_flatconfig_u1_pascal":
+            o = cx.old
+            Db, Ca = C(o.nb, o.kb), C(o.na, o.ka)
+            # instances of lemmas C-nonneg (Db >= 0) and quotient-below (r < Ca*Db, Db >= 1  =>  r div Db < Ca)
+            cx.assume(Db >= 0)
+            cx.assume(Implies(And(Db >= 1, 0 <= o.r, o.r < Ca * Db), o.r / Db < Ca))
+        return super().call(cx, name, args, kwargs, node)
+
+
+@register
+class RankToU1U1(U1U1):
+    target = f"{CC}::rank_to_flatconfig_u1u1_pascal"
+    floor = 4
+
+    def inputs(self, cx, case):
+        return dict(r=cx.Int("r"), na=cx.Int("na"), ka=cx.Int("ka"), nb=cx.Int("nb"), kb=cx.Int("kb"), pt=self.table(cx))
+
+    def instances(self, cx):
+        return [G]
+
+    def requires(self, a, case):
+        return {**self.sector_requires(a), "rank-in-sector": And(0 <= a.r, a.r < C(a.na, a.ka) * C(a.nb, a.kb)),
+                **self.table_requires2(a)}
+
+    def ensures(self, a, res, cx, case):
+        if not (isinstance(res, Arr) and res.ndim == 1):
+            return {"returns-vector": False}
+        return {"length": res.shape[0] == a.na + a.nb, "greedy-bits-both-sections": UnrankU1U1.u1u1_post(self, a, res)}
+
+    def fresh_result(self, cx, a, case):
+        return self.intvec(cx, "cfg", a.na + a.nb)
+
+
+# --- lemmas: u1u1 composition (C16 digits-unique style; the products are the only nonlinear terms) ---------------
+_D, _Ca, _ra, _rb, _q = z3.Ints("D Ca ra rb q")
+
+
+@L("u1u1-quotient-below")
+def lem_q_below():
+    # r < Ca*D, D >= 1  =>  r div D < Ca       (q = r div D characterised by D*q <= r < D*q + D)
+    return [_D >= 1, 0 <= _r0, _r0 < _Ca * _D, _D * _q <= _r0, _r0 < _D * _q + _D, (_Ca - _q) * _D == _Ca * _D - _q * _D], _q < _Ca
+
+
+@L("u1u1-rank-of-unrank")
+def lem_u1u1_ru():
+    # ra = r div D and rb = r mod D are recovered by the two u1 ranks (u1-rank-of-unrank), so ra*D + rb = r
+    return [_D >= 1, 0 <= _r0, _ra == _r0 / _D, _rb == _r0 % _D], _ra * _D + _rb == _r0
+
+
+@L("u1u1-unrank-of-rank")
+def lem_u1u1_ur():
+    # digits are unique: (ra*D + rb) div D = ra and mod D = rb for 0 <= rb < D; the u1 lemmas then recover each section
+    x = _ra * _D + _rb
+    return [_D >= 1, 0 <= _rb, _rb < _D, _ra >= 0, _q == x / _D, _D * _q <= x, x < _D * _q + _D,
+            (_ra - _q) * _D == _ra * _D - _q * _D], And(x / _D == _ra, x % _D == _rb)
+
+
+@L("u1u1-rank-in-sector")
+def lem_u1u1_range():
+    # 0 <= ra < Ca, 0 <= rb < D  =>  0 <= ra*D + rb < Ca*D : ranks lie in [0, C(na,ka)*C(nb,kb))
+    return [_D >= 1, 0 <= _ra, _ra < _Ca, 0 <= _rb, _rb < _D, (_Ca - 1 - _ra) * _D == _Ca * _D - _D - _ra * _D,
+            (_Ca - 1 - _ra) * _D >= 0, _ra * _D >= 0], And(0 <= _ra * _D + _rb, _ra * _D + _rb < _Ca * _D)
+
+
+@L("u1u1-product-sign-hint")
+def lem_prod_sign():
+    return [_ra >= 0, _D >= 0], _ra * _D >= 0
+
+
+# =========================================================================================================
+# Part 2 -- fdx: finite-domain exhaustive obligations on the operator tables of quimb/operator/builder.py
+# (the REAL functions are executed on every element of their complete finite domain; the post-condition is
+#  evaluated exactly against 2x2 matrices written down here from textbook conventions, not taken from quimb)
+# =========================================================================================================
+
+
+def textbook_mats():
+    """single-site operators in the basis |0> = empty / spin up = (1,0)^T, |1> = occupied / spin down = (0,1)^T.
+    Paulis as usual; s* = sigma*/2; '+' creates (|1><0|), '-' annihilates (|0><1|); n = |1><1|; sn = n - 1/2;
+    h = 1 - n; ZX ('real Y') = sigma_z sigma_x = i sigma_y."""
+    import numpy as np
+
+    X = np.array([[0, 1], [1, 0]], dtype=complex)
+    Y = np.array([[0, -1j], [1j, 0]], dtype=complex)
+    Zm = np.array([[1, 0], [0, -1]], dtype=complex)
+    Id = np.eye(2, dtype=complex)
+    N = np.array([[0, 0], [0, 1]], dtype=complex)
+    return {"I": Id, "x": X, "y": Y, "z": Zm, "ⴵ": Zm @ X, "sx": X / 2, "sy": Y / 2, "sz": Zm / 2,
+            "+": np.array([[0, 0], [1, 0]], dtype=complex), "-": np.array([[0, 1], [0, 0]], dtype=complex),
+            "n": N, "sn": N - Id / 2, "h": Id - N}
+
+
+def _ob(fn, label, ok, t0, model=None, detail=None, unknown=False):
+    from vf.framework import ObResult
+
+    return ObResult(id=f"{BD}::{fn}::{label}", kind="fdx", status="unknown" if unknown else ("discharged" if ok else "failed"),
+                    backend="exhaustive", solver_s=time.time() - t0, function=f"{BD}::{fn}", model=None if ok else model,
+                    detail=detail, engine="fdx")
+
+
+def _cstr(z):
+    z = complex(z)
+    return repr(z.real) if z.imag == 0 else repr(z)
+
+
+FDX_COEFFS = (1.0, 0.75 - 0.5j)  # simplify_single_site_ops is linear in coeff: one real and one complex representative
+
+
+def provider_simplify(tier):
+    """simplify_single_site_ops(coeff, ops) for EVERY sequence of 1..3 (thorough: 4) names of _OPMAP:
+         null-iff-product-vanishes[len=L] : the result is the documented null result (0, None) iff prod mat(ops_i) = 0
+         product-preserved[len=L]         : otherwise op is a name of the table and coeff' * mat(op) = coeff * prod mat(ops_i)
+    one obligation per sequence length (known finding on the unchanged tree for L >= 2: inverted coefficient ratio)."""
+    import numpy as np
+    from quimb.operator import builder as B
+
+    M = textbook_mats()
+    names = list(B._OPMAP)
+    out = []
+    t0 = time.time()
+    out.append(_ob("simplify_single_site_ops", "vocabulary-is-the-13-textbook-names", sorted(names) == sorted(M), t0,
+                   model=dict(table=names, textbook=sorted(M))))
+    if sorted(names) != sorted(M):
+        return out
+    fn = getattr(B.simplify_single_site_ops, "__wrapped__", B.simplify_single_site_ops)  # body without the lru_cache
+    maxlen = 4 if tier == "thorough" else 3
+    for L_ in range(1, maxlen + 1):
+        t0 = time.time()
+        bad_null, bad_prod, nseq = [], [], 0
+        for ops in itertools.product(names, repeat=L_):
+            prod = M[ops[0]]
+            for o in ops[1:]:
+                prod = prod @ M[o]
+            vanishes = not np.any(np.abs(prod) > 1e-12)
+            for coeff in FDX_COEFFS:
+                nseq += 1
+                call = f"simplify_single_site_ops({coeff!r}, {ops!r})"
+                try:
+                    c2, op = fn(coeff, ops)
+                except Exception as e:  # noqa: BLE001
+                    bad_prod.append(dict(call=call, raised=f"{type(e).__name__}: {e}"))
+                    continue
+                is_null = op is None
+                if is_null != vanishes or (is_null and c2 != 0):
+                    bad_null.append(dict(call=call, returned=[_cstr(c2) if c2 is not None else None, op],
+                                         product_vanishes=bool(vanishes)))
+                    continue
+                if is_null:
+                    continue
+                if op not in M:
+                    bad_prod.append(dict(call=call, returned=[_cstr(c2), op], reason="operator name not in the table"))
+                    continue
+                lhs, rhs = c2 * M[op], coeff * prod
+                if not np.allclose(lhs, rhs, rtol=0, atol=1e-12):
+                    # the scalar lam with  coeff*prod = lam * mat(op)  (what coeff' should have been)
+                    k = int(np.argmax(np.abs(M[op])))
+                    lam = rhs.flat[k] / M[op].flat[k]
+                    prop = np.allclose(lam * M[op], rhs, rtol=0, atol=1e-12)
+                    bad_prod.append(dict(call=call, returned=[_cstr(c2), op],
+                                         expected=[_cstr(lam), op] if prop else "product not proportional to the returned op"))
+        dom = f"{len(names)}^{L_} sequences x {len(FDX_COEFFS)} coefficients = {nseq} calls"
+        out.append(_ob("simplify_single_site_ops", f"null-iff-product-vanishes[len={L_}]", not bad_null, t0,
+                       model=dict(domain=dom, violations=len(bad_null), counterexample=bad_null[:1], more=bad_null[1:6])))
+        out.append(_ob("simplify_single_site_ops", f"product-preserved[len={L_}]", not bad_prod, t0,
+                       model=dict(domain=dom, violations=len(bad_prod), counterexample=bad_prod[:1], more=bad_prod[1:8])))
+    return out
+
+
+def provider_pauli_decomp(tier):
+    """get_pauli_decomp(op, use_zx): sum_b c_b * mat(b) == mat(op), components only from the Pauli basis
+    (I, x, y, z; with use_zx: I, x, ZX, z), for every operator name and both use_zx values"""
+    import numpy as np
+    from quimb.operator import builder as B
+
+    M = textbook_mats()
+    out = []
+    for op in B._OPMAP:
+        for use_zx in (False, True):
+            t0 = time.time()
+            call = f"get_pauli_decomp({op!r}, use_zx={use_zx})"
+            try:
+                terms = list(getattr(B.get_pauli_decomp, "__wrapped__", B.get_pauli_decomp)(op, 1e-12, use_zx))
+                basis = ("I", "x", "ⴵ", "z") if use_zx else ("I", "x", "y", "z")
+                names_ok = all(b in basis for _, b in terms) and len({b for _, b in terms}) == len(terms)
+                tot = sum((c * M[b] for c, b in terms if b in M), np.zeros((2, 2), dtype=complex))
+                ok = names_ok and op in M and np.allclose(tot, M[op], rtol=0, atol=1e-12)
+                model = dict(call=call, returned=[[_cstr(c), b] for c, b in terms], basis_ok=names_ok,
+                             sum=str(tot.tolist()), expected=str(M.get(op, np.zeros(0)).tolist()))
+            except Exception as e:  # noqa: BLE001
+                ok, model = False, dict(call=call, raised=f"{type(e).__name__}: {e}")
+            out.append(_ob("get_pauli_decomp", f"decomposition-sums-to-operator[op={op},use_zx={use_zx}]", ok, t0, model=model))
+    return out
+
+
+def provider_opmap(tier):
+    """_OPMAP rows {xi: (xj, cij)}:  get_mat(op)[xj, xi] == cij and every other entry 0; the matrix is the textbook one;
+    row order: two-entry rows list input 0 then 1, one-entry rows have their input bit as key -- required by
+    _check_next_coupled_term, which reads a two-entry operator at ib = b + xi and a one-entry operator by comparing
+    xi == xis[b]; checked on the table and on the flat arrays the REAL build_coupling_numba emits for each op"""
+    import numpy as np
+    from quimb.operator import builder as B
+
+    M = textbook_mats()
+    out = []
+    for op, row in B._OPMAP.items():
+        t0 = time.time()
+        gm = getattr(B.get_mat, "__wrapped__", B.get_mat)
+        try:
+            A = np.array(gm(op), dtype=complex)
+            exp = np.zeros((2, 2), dtype=complex)
+            for xi, (xj, cij) in row.items():
+                exp[xj, xi] = cij
+            ok = A.shape == (2, 2) and np.array_equal(A, exp)
+            out.append(_ob("get_mat", f"matrix-is-table-row[op={op}]", ok, t0,
+                           model=dict(call=f"get_mat({op!r})", returned=str(A.tolist()), table_row=str(row))))
+            ok = op in M and np.allclose(A, M[op], rtol=0, atol=0)
+            out.append(_ob("get_mat", f"matrix-is-textbook[op={op}]", ok, t0,
+                           model=dict(call=f"get_mat({op!r})", returned=str(A.tolist()),
+                                      textbook=str(M.get(op, np.zeros(0)).tolist()))))
+        except Exception as e:  # noqa: BLE001
+            out.append(_ob("get_mat", f"matrix-is-table-row[op={op}]", False, t0,
+                           model=dict(call=f"get_mat({op!r})", raised=f"{type(e).__name__}: {e}")))
+        keys = list(row)
+        ok = (keys == [0, 1] or (len(keys) == 1 and keys[0] in (0, 1))) and all(xj in (0, 1) for xj, _ in row.values())
+        out.append(_ob("_OPMAP", f"row-order-input-0-then-1[op={op}]", ok, t0, model=dict(op=op, row=str(row), keys=keys)))
+        # the flat arrays really handed to the kernels
+        t0 = time.time()
+        call = f"build_coupling_numba({{(({op!r}, 0),): 1.0}}, identity, dtype=complex128)"
+        try:
+            sizes_term, regs, sizes_op, xis, xjs, cijs = B.build_coupling_numba({((op, 0),): 1.0}, lambda s: s, np.complex128)
+            so = int(sizes_op[0])
+            ok = list(sizes_term) == [1] and list(regs) == [0] and len(sizes_op) == 1 and so == len(xis) == len(xjs) == len(cijs)
+            # semantics of _check_next_coupled_term on these arrays = action of the textbook matrix on |x>
+            for x in (0, 1):
+                if not ok:
+                    break
+                if so == 1:
+                    hit = int(xis[0]) == x
+                    col = np.zeros(2, dtype=complex)
+                    if hit:
+                        col[int(xjs[0])] = cijs[0]
+                else:
+                    ib = x  # b + xi with b = 0
+                    ok = ok and so == 2 and int(xis[ib]) == x
+                    col = np.zeros(2, dtype=complex)
+                    col[int(xjs[ib])] = cijs[ib]
+                ok = ok and np.array_equal(col, M[op][:, x])
+            out.append(_ob("build_coupling_numba", f"entries-indexed-by-input-bit[op={op}]", ok, t0,
+                           model=dict(call=call, sizes_op=[int(s) for s in sizes_op], xis=[int(v) for v in xis],
+                                      xjs=[int(v) for v in xjs], cijs=[_cstr(v) for v in cijs],
+                                      textbook=str(M[op].tolist()))))
+        except Exception as e:  # noqa: BLE001
+            out.append(_ob("build_coupling_numba", f"entries-indexed-by-input-bit[op={op}]", False, t0,
+                           model=dict(call=call, raised=f"{type(e).__name__}: {e}")))
+    return out
+
+
+def _jw_expected(term, site_to_reg, reg_to_site):
+    """spec: every '+'/'-' at register r is preceded, in term order, by exactly one 'z' on each register < r
+    (increasing registers), every original operator is kept in order, nothing else is inserted; a term without
+    '+'/'-' is unchanged"""
+    new = []
+    for op, site in term:
+        if op in ("+", "-"):
+            new.extend(("z", reg_to_site(q)) for q in range(site_to_reg(site)))
+        new.append((op, site))
+    return tuple(new)
+
+
+def provider_jordan_wigner(tier):
+    """jordan_wigner_transform on every single-operator and every two-operator term over the 13 names on <= 4
+    registers (identity labelling and a permuted non-integer labelling), plus the empty (all-identity) term"""
+    from quimb.operator import builder as B
+
+    names = list(B._OPMAP)
+    nreg = 4
+    labellings = {"identity": (None, None),
+                  "permuted": ((lambda s: {"a": 2, "b": 0, "c": 3, "d": 1}[s]), (lambda q: {2: "a", 0: "b", 3: "c", 1: "d"}[q]))}
+    out = []
+    for lname, (s2r, r2s) in labellings.items():
+        sites = list(range(nreg)) if s2r is None else ["a", "b", "c", "d"]
+        f_s2r = s2r or (lambda s: s)
+        f_r2s = r2s or (lambda q: q)
+        singles = [((o, s),) for o in names for s in sites]
+        pairs = [((o1, s1), (o2, s2)) for o1 in names for s1 in sites for o2 in names for s2 in sites]
+        for kind, terms in (("single-terms", [()] + singles), ("pair-terms", pairs)):
+            t0 = time.time()
+            bad = []
+            for k, term in enumerate(terms):
+                coeff = 0.5 + k  # distinct coefficients: a swapped / dropped coefficient is visible
+                call = f"jordan_wigner_transform({{{term!r}: {coeff!r}}}, labelling={lname})"
+                try:
+                    res = B.jordan_wigner_transform({term: coeff}, s2r, r2s)
+                except Exception as e:  # noqa: BLE001
+                    bad.append(dict(call=call, raised=f"{type(e).__name__}: {e}"))
+                    continue
+                exp = {_jw_expected(term, f_s2r, f_r2s): coeff}
+                if res != exp:
+                    bad.append(dict(call=call, returned=str(res), expected=str(exp)))
+            # all terms at once (dict in, dict out): the images are pairwise distinct, so nothing may merge
+            try:
+                allin = {t: 0.5 + k for k, t in enumerate(terms)}
+                res = B.jordan_wigner_transform(allin, s2r, r2s)
+                exp = {_jw_expected(t, f_s2r, f_r2s): c for t, c in allin.items()}
+                if res != exp or list(res) != list(exp):
+                    bad.append(dict(call=f"jordan_wigner_transform(<all {len(terms)} {kind} at once>, labelling={lname})",
+                                    differing=[str(t) for t in exp if res.get(t) != exp[t]][:5]))
+            except Exception as e:  # noqa: BLE001
+                bad.append(dict(call=f"jordan_wigner_transform(<all {kind} at once>)", raised=f"{type(e).__name__}: {e}"))
+            out.append(_ob("jordan_wigner_transform", f"z-strings-below-every-ladder-operator[{kind},{lname}]", not bad, t0,
+                           model=dict(domain=f"{len(terms)} terms on {nreg} registers", violations=len(bad),
+                                      counterexample=bad[:1], more=bad[1:5])))
+    return out
+
+
+def provider_fdx(tier):
+    """all finite-domain exhaustive obligations of C19"""
+    out = []
+    for p in (provider_opmap, provider_pauli_decomp, provider_jordan_wigner, provider_simplify):
+        out.extend(p(tier))
+    return out
